@@ -284,6 +284,70 @@ func runC13(c *core.Ctx) {
 			}
 		}
 	})
+	// (1b) status counts near 2^16 (where 16-bit counters wrap), final runs that overshoot
+	c.Section("near-wrap", c.N(400, 20000), func(cs *core.Case) {
+		r := cs.R
+		n := r.Pick(57343, 57344, 57345, 57346, 60000, 65520, 65521, 65522, 65534, 65535)
+		m := &gen.TWCCModel{Sender: r.U32(), Media: r.U32(), Base: r.U16(), RefTime: r.U32() & 0xFFFFFF, FbCount: r.U8(), NoPFlag: r.Chance(1, 4)}
+		for len(m.Status) < n {
+			sym := uint8(r.Pick(0, 0, 0, 0, 0, 0, 1, 2))
+			run := 1 + r.Intn(9000)
+			if r.Chance(1, 4) {
+				run = 1 + r.Intn(20)
+			}
+			for ; run > 0 && len(m.Status) < n; run-- {
+				m.Status = append(m.Status, sym)
+			}
+		}
+		// make the tail a received run, so that an unclipped run would create surplus deltas
+		tail := 1 + r.Intn(300)
+		ts := uint8(1 + r.Intn(2))
+		for i := n - tail; i < n; i++ {
+			m.Status[i] = ts
+		}
+		for _, s := range m.Status {
+			if s == 1 {
+				m.Deltas = append(m.Deltas, int64(r.Intn(256)))
+			} else if s == 2 {
+				m.Deltas = append(m.Deltas, int64(r.Intn(65536)-32768))
+			}
+		}
+		want := modelProjection(m)
+		for k := 0; k < 3; k++ {
+			chunks := m.Chunks(r, gen.ChunkOpts{OvershootRun: true})
+			v := m.Value(chunks)
+			e, err := ref.Encode(v, ref.RFC)
+			if err != nil || len(e.B) >= 65536 {
+				continue
+			}
+			got, derr, pan := gUnmarshalOwn(gen.TWCC, cloneBytes(e.B))
+			cs.Eval(1)
+			cs.Distinct(core.Digest(e.B))
+			cs.Count("near-wrap")
+			det := func(extra core.W) core.W {
+				d := core.W{"status_count": n, "chunks": len(chunks), "last_chunk": vdump(chunks[len(chunks)-1]), "input_len": len(e.B), "input_head_hex": mon.Hex(e.B, 64)}
+				for a, b := range extra {
+					d[a] = b
+				}
+				return d
+			}
+			if pan != "" {
+				cs.Fail("panic/Unmarshal", det(core.W{"panic": pan}))
+				return
+			}
+			if derr != nil {
+				cs.Fail("invariance/rejected", det(core.W{"error": errStr(derr)}))
+				continue
+			}
+			t := got.(*rtcp.TransportLayerCC)
+			proj, perr := projectTWCC(t)
+			if perr != nil || !mon.SemEqual(proj, want) {
+				cs.Fail("invariance/differs", det(core.W{"problem": fmt.Sprint(perr), "decoded_chunks": len(t.PacketChunks), "decoded_deltas": len(t.RecvDeltas), "expected_deltas": len(want.Deltas)}))
+				continue
+			}
+			c13Walk(cs, e.B, t, "own")
+		}
+	})
 	// (2) arbitrary accepted octets: mutants
 	c.Section("mutants", c.N(500000, 90000000), func(cs *core.Case) {
 		r := cs.R
